@@ -542,6 +542,26 @@ def _fresh_call(cx, call, cls):
     return None
 
 
+def r7_reset_keeps_extent(ck, cx):
+    ck.rule('R7', 'reset() of a data block restores the values and nothing else: the start address (and with it the accepted range) is unchanged')
+    n = 0
+    base = cx.idx.cls('pymodbus.datastore.store.BaseModbusDataBlock')
+    for k in [base] + cx.idx.subclasses(base):
+        fn = cx.idx.find_method(k, 'reset')
+        if fn is None:
+            continue
+        ck.saw('functions', fn.qn)
+        for p in cx.enum(fn, k, max_depth=2):
+            if p.exit and p.exit[0] == 'exc':
+                continue
+            n += 1
+            writes = [e for e in p.ev if e.kind in ('assign', 'aug') and isinstance(e.a, ast.Attribute) and e.a.attr == 'address']
+            ck.ob('R7', k.qn + '.reset', 'reset() does not assign the block address', not writes, detail='reset-moves-block', loc=cx.floc(fn),
+                  message='%s.reset() assigns the block address (`%s`): a block that does not start at 0 rejects its own cells after a reset'
+                          % (k.name, U(writes[0].node)[:50] if writes else ''))
+    ck.floor('R7', n, 2, 'reset paths')
+
+
 def run(ck, tier):
     cx = Ctx()
     ck.guard(r1_sequential_validate, ck, cx)
@@ -550,6 +570,7 @@ def run(ck, tier):
     ck.guard(r4_context_offset, ck, cx)
     ck.guard(r5_server_context, ck, cx)
     ck.guard(r6_table_isolation, ck, cx)
+    ck.guard(r7_reset_keeps_extent, ck, cx)
     ck.assume('Python slice, dict and set semantics are trusted')
     ck.assume('histories of operations are not decided; the rules fix the shape of every address computation')
     return cx.idx
